@@ -209,9 +209,9 @@ func r34FlagTable(c *core.Ctx) {
 		ig := c.Anchor(R, "main.initGPKGTarget")
 		ok := false
 		if ig != nil {
-			removes := findCalls(ig.SSA, "os.Remove")
+			removes := effectiveCalls(ig.SSA, "os.Remove", 2)
 			if len(removes) == 1 {
-				rem := removes[0]
+				rem := removes[0].Site
 				// unreachable when the true edge of If(overwrite) is not taken
 				var guardIf *ssa.If
 				for _, b := range ig.SSA.Blocks {
@@ -368,15 +368,15 @@ func r36ActionOrder(c *core.Ctx) {
 	c.Check(R, "one-target-per-id/main.Action", lit.Pos(), okPer, "initGPKGTarget(fmt, id, …) for every element of the validated id list, stored under that id", "targets: "+why)
 	// (3) initGPKGTarget: remove (if any) precedes Init, both on Sprintf(targetPathFmt, tmID)
 	if ig := c.Anchor(R, "main.initGPKGTarget"); ig != nil {
-		removes := findCalls(ig.SSA, "os.Remove")
+		removes := effectiveCalls(ig.SSA, "os.Remove", 2)
 		inits := findCalls(ig.SSA, mp+"/processing/gpkg.TargetGeopackage.Init")
 		ok := len(removes) == 1 && len(inits) == 1
-		why := "expected one os.Remove and one Init"
+		why := "expected one os.Remove (in initGPKGTarget or a helper it calls) and one Init"
 		if ok {
-			rem, ini := removes[0], inits[0]
-			path := rem.Call.Args[0]
+			rem, ini := removes[0].Site, inits[0]
+			path := removes[0].Args[0]
 			why = ""
-			if ini.Call.Args[1] != path {
+			if path == nil || ini.Call.Args[1] != path {
 				why += "Init opens a different path than the one removed; "
 			}
 			if sp, isCall := path.(*ssa.Call); !isCall || core.StaticCalleeID(sp) != "fmt.Sprintf" || sp.Call.Args[0] != ssa.Value(ig.SSA.Params[0]) {
